@@ -5,7 +5,7 @@ created beforehand with distinct contents.  Every remote call is TWO scheduler e
 the server, deliver the response), so server-side order and client-side arrival order are explored
 independently.  ALL interleavings with <= d deviations from the canonical order are executed, for
 (k,N,S) on both sides of (W+1)k <= N, SDMF and MDMF; also with one server having lost its shares beforehand (both
-writers then look for a new home for the same share numbers), one deviation less.
+writers then look for a new home for the same share numbers), at <= 1 deviation.
 Oracle:
  (a) test-and-set at the server: whenever a write call changes a share, the share's checkstring on
      disk just before the call equals the checkstring this writer last observed for that
@@ -198,7 +198,7 @@ def run(tier, seed):
     lost = [dict(c, lost=[sv]) for c in cases for sv in range(c["S"]) if c["n"] - (c["n"] // c["S"]) >= c["k"]]
     if tier == "quick":
         lost = [c for c in lost if c["lost"][0] in (0, c["S"] - 1)]
-    res.merge(grid.split_tasks(common.pmap, chunk, lost, (seed,), d - 1, 0))
+    res.merge(grid.split_tasks(common.pmap, chunk, lost, (seed,), 1, 0))
     # encryption / hashing in the thread pool complete as scheduled events the other writer's calls can overtake
     res.merge(grid.split_tasks(common.pmap, chunk, [dict(c, cpu=True) for c in cases], (seed,), d - 1, 0))
     cov = {
